@@ -91,9 +91,15 @@ def search(case):
             expand_all(css)
         else:
             # expand until a specification is detected, as auto_search does
-            while not css.has_specification():
-                if not css._expand_classes_for(0.0, None, 0, 0)[0]:  # pylint: disable=protected-access
-                    break
+            # (a call with expansion time 0 processes exactly one work packet; `check_every`
+            # packets are processed between two has_specification() calls)
+            k = max(1, int(case.get("check_every", 1)))
+            more = True
+            while more and not css.has_specification():
+                for _ in range(k):
+                    if not css._expand_classes_for(0.0, None, 0, 0)[0]:  # pylint: disable=protected-access
+                        more = False
+                        break
         if not css.has_specification():
             return out
         ruledb = css.ruledb
